@@ -42,7 +42,8 @@ def _src_hash(src_root: Path) -> str:
 def backend_env(backend: str, repo: Path | None = None) -> dict:
     env = dict(os.environ)
     env["VERIF_SRC"] = str((repo or core.REPO) / "src")
-    env["PYTHONPATH"] = str(core.ROOT / "py")
+    # keep what the caller put on the path (coverage's sitecustomize when measuring), our package first
+    env["PYTHONPATH"] = os.pathsep.join([str(core.ROOT / "py")] + [p for p in os.environ.get("PYTHONPATH", "").split(os.pathsep) if p])
     env["PYTHONDONTWRITEBYTECODE"] = "1"
     env[core.GUARD] = "1"
     env.pop("MCP_FORCE_FALLBACK", None)
@@ -641,4 +642,491 @@ def sites : List DumpSite := [
 end Verif.Gen.DumpSites
 """
     report["sites"] = sites
+    return lean, report
+
+
+# ------------------------------------------------------------------------------ Gen/Builders
+class _NoBuild(Exception):
+    pass
+
+
+def _lean_bkey(k):
+    return f"(.lit {lstr(k[1])})" if k[0] == "lit" else f"(.param {lstr(k[1])})"
+
+
+def _lean_bexpr(e):
+    k = e[0]
+    if k == "param":
+        return f"(.param {lstr(e[1])})"
+    if k == "const":
+        return f"(.const {ljson(e[1])})"
+    if k == "list":
+        return "(.list [" + ", ".join(_lean_bexpr(x) for x in e[1]) + "])"
+    if k == "dict":
+        return "(.dict [" + ", ".join(f"({_lean_bkey(kk)}, {_lean_bexpr(v)})" for kk, v in e[1]) + "])"
+    if k == "model":
+        return f"(.model {lstr(e[1])} [" + ", ".join(f"({lstr(a)}, {_lean_bexpr(v)})" for a, v in e[2]) + "])"
+    if k == "orElse":
+        return f"(.orElse {_lean_bexpr(e[1])} {_lean_bexpr(e[2])})"
+    if k == "ite":
+        return f"(.ite {_lean_bcond(e[1])} {_lean_bexpr(e[2])} {_lean_bexpr(e[3])})"
+    raise Bad(k)
+
+
+def _lean_bcond(c):
+    return f"(.{c[0]} {lstr(c[1])})"
+
+
+def _lean_bstmt(s):
+    if s[0] == "assign":
+        return f"(.assign {lstr(s[1])} {_lean_bexpr(s[2])})"
+    if s[0] == "assignIf":
+        return f"(.assignIf {_lean_bcond(s[1])} {lstr(s[2])} {_lean_bexpr(s[3])})"
+    if s[0] == "setKeyIf":
+        return f"(.setKeyIf {_lean_bcond(s[1])} {lstr(s[2])} {_lean_bkey(s[3])} {_lean_bexpr(s[4])})"
+    raise Bad(s[0])
+
+
+class _BuilderTranslator:
+    """`create_*` helpers whose body is straight-line construction: single assignments of locals,
+    `if <param> [is (not) None]:` guarding ONE assignment or ONE `d[key] = …`, and a `return` of a
+    constructor call / dict / local.  Expressions: parameters, locals, constants, list and dict
+    displays, `a or b`, `Class(kw=…)`, `cls(kw=…)` in a classmethod, calls of other translatable
+    helpers (inlined).  Anything else is reported as skipped — never guessed."""
+
+    def __init__(self, res: _Resolver):
+        self.res = res
+        self.funcs = {}  # (modname, qual) -> (mod, FunctionDef, owner class name | None)
+        for modname, mod in res.mods.items():
+            if not modname.startswith("chuk_mcp.protocol"):
+                continue
+            for n in mod.tree.body:
+                if isinstance(n, ast.FunctionDef):
+                    self.funcs[(modname, n.name)] = (mod, n, None)
+                if isinstance(n, ast.ClassDef):
+                    for m in n.body:
+                        if isinstance(m, ast.FunctionDef) and m.name.startswith("create_") and any(
+                                isinstance(d, ast.Name) and d.id == "classmethod" for d in m.decorator_list):
+                            self.funcs[(modname, f"{n.name}.{m.name}")] = (mod, m, n.name)
+        self.cache = {}
+        self.fresh = 0
+
+    def find_function(self, mod, fn, name):
+        """a helper called by bare name: same module, a module-level import, or an import inside the function"""
+        if (mod.modname, name) in self.funcs:
+            return (mod.modname, name)
+        imps = dict(mod.imports)
+        for st in ast.walk(fn):
+            if isinstance(st, ast.ImportFrom):
+                base = mod._abs(st.module, st.level)
+                for a in st.names:
+                    imps[a.asname or a.name] = (base, a.name)
+        if name in imps:
+            m, n = imps[name]
+            if (m, n) in self.funcs:
+                return (m, n)
+        return None
+
+    def expr(self, mod, fn, owner, e, scope, subst, pre=None):
+        if isinstance(e, ast.Constant):
+            if e.value is None or isinstance(e.value, (bool, int, float, str)):
+                return ("const", e.value)
+            raise _NoBuild("constant " + type(e.value).__name__)
+        if isinstance(e, ast.Name):
+            if e.id in subst:
+                return subst[e.id]
+            if e.id in scope:
+                return ("param", e.id)
+            raise _NoBuild(f"free name {e.id}")
+        if isinstance(e, ast.List):
+            return ("list", [self.expr(mod, fn, owner, x, scope, subst, pre) for x in e.elts])
+        if isinstance(e, ast.Dict):
+            kvs = []
+            for k, v in zip(e.keys, e.values):
+                kvs.append((self.key(k, scope, subst), self.expr(mod, fn, owner, v, scope, subst, pre)))
+            return ("dict", kvs)
+        if isinstance(e, ast.BoolOp) and isinstance(e.op, ast.Or) and len(e.values) == 2:
+            return ("orElse", self.expr(mod, fn, owner, e.values[0], scope, subst, pre),
+                    self.expr(mod, fn, owner, e.values[1], scope, subst, pre))
+        if isinstance(e, ast.IfExp):
+            # both arms are evaluated by the translator, so neither may need statements of its own
+            return ("ite", self.cond(e.test, scope), self.expr(mod, fn, owner, e.body, scope, subst, None),
+                    self.expr(mod, fn, owner, e.orelse, scope, subst, None))
+        if isinstance(e, ast.Call) and isinstance(e.func, ast.Name) and not e.args or (
+                isinstance(e, ast.Call) and isinstance(e.func, ast.Name)):
+            name = e.func.id
+            if any(kw.arg is None for kw in e.keywords):
+                raise _NoBuild("**kwargs")
+            if name == "cls" and owner is not None:
+                ids = self.res.name_to_ids(mod, owner)
+            else:
+                ids = self.res.name_to_ids(mod, name) if name not in ("dict", "list", "str") else None
+            if ids and len(ids) == 1:
+                if e.args:
+                    raise _NoBuild("positional constructor arguments")
+                return ("model", next(iter(ids)), [(kw.arg, self.expr(mod, fn, owner, kw.value, scope, subst, pre)) for kw in e.keywords])
+            target = self.find_function(mod, fn, name)
+            if target is not None:
+                b = self.translate(*target)
+                actual = {}
+                for (pn, _d), a in zip(b["params"], e.args):
+                    actual[pn] = self.expr(mod, fn, owner, a, scope, subst, pre)
+                for kw in e.keywords:
+                    actual[kw.arg] = self.expr(mod, fn, owner, kw.value, scope, subst, pre)
+                for pn, d in b["params"]:
+                    if pn not in actual:
+                        if d is _REQUIRED:
+                            raise _NoBuild(f"call of {name} without {pn}")
+                        actual[pn] = ("const", d)
+                if not b["body"]:
+                    return _subst_expr(b["ret"], actual)
+                # the callee has statements: inline them under fresh names, arguments bound first
+                if pre is None:
+                    raise _NoBuild(f"call of {name} (which has statements) in a conditional position")
+                self.fresh += 1
+                pfx = f"{name}#{self.fresh}."
+                names = {pn for pn, _ in b["params"]} | {st[1] if st[0] == "assign" else st[2] for st in b["body"]}
+                ren = {n: pfx + n for n in names}
+                for pn, _ in b["params"]:
+                    pre.append(("assign", ren[pn], actual[pn]))
+                for st in b["body"]:
+                    pre.append(_rename_stmt(st, ren))
+                scope.update(ren.values())
+                return _rename_expr(b["ret"], ren)
+            raise _NoBuild(f"call of {name}")
+        raise _NoBuild(type(e).__name__)
+
+    def key(self, k, scope, subst):
+        if isinstance(k, ast.Constant) and isinstance(k.value, str):
+            return ("lit", k.value)
+        if isinstance(k, ast.Name) and k.id in scope and k.id not in subst:
+            return ("param", k.id)
+        raise _NoBuild("dict key")
+
+    def cond(self, t, scope):
+        if isinstance(t, ast.Name) and t.id in scope:
+            return ("truthy", t.id)
+        if (isinstance(t, ast.Compare) and isinstance(t.left, ast.Name) and t.left.id in scope and len(t.ops) == 1
+                and isinstance(t.comparators[0], ast.Constant) and t.comparators[0].value is None):
+            if isinstance(t.ops[0], ast.IsNot):
+                return ("notNone", t.left.id)
+            if isinstance(t.ops[0], ast.Is):
+                return ("isNone", t.left.id)
+        raise _NoBuild("condition")
+
+    def simple_stmt(self, mod, fn, owner, st, scope, pre=None):
+        """-> ("assign", x, e) | ("setKey", x, key, e)"""
+        if isinstance(st, ast.AnnAssign) and isinstance(st.target, ast.Name) and st.value is not None:
+            return ("assign", st.target.id, self.expr(mod, fn, owner, st.value, scope, {}, pre))
+        if isinstance(st, ast.Assign) and len(st.targets) == 1:
+            t = st.targets[0]
+            if isinstance(t, ast.Name):
+                return ("assign", t.id, self.expr(mod, fn, owner, st.value, scope, {}, pre))
+            if isinstance(t, ast.Subscript) and isinstance(t.value, ast.Name) and t.value.id in scope:
+                return ("setKey", t.value.id, self.key(t.slice, scope, {}), self.expr(mod, fn, owner, st.value, scope, {}, pre))
+        raise _NoBuild(type(st).__name__)
+
+    def translate(self, modname, qual):
+        if (modname, qual) in self.cache:
+            r = self.cache[(modname, qual)]
+            if isinstance(r, _NoBuild):
+                raise r
+            return r
+        try:
+            r = self._translate(modname, qual)
+        except _NoBuild as ex:
+            self.cache[(modname, qual)] = ex
+            raise
+        self.cache[(modname, qual)] = r
+        return r
+
+    def _translate(self, modname, qual):
+        mod, fn, owner = self.funcs[(modname, qual)]
+        a = fn.args
+        if a.vararg or a.kwarg or a.posonlyargs or a.kwonlyargs:
+            raise _NoBuild("signature")
+        names = [x.arg for x in a.args]
+        if owner is not None:
+            names = names[1:]
+        defaults = [_REQUIRED] * (len(names) - len(a.defaults)) + [self._default(d) for d in a.defaults]
+        scope = set(names)
+        body, ret = [], None
+        for st in fn.body:
+            if isinstance(st, ast.Expr) and isinstance(st.value, ast.Constant):
+                continue
+            if isinstance(st, (ast.Import, ast.ImportFrom)):
+                continue
+            if ret is not None:
+                raise _NoBuild("code after return")
+            if isinstance(st, ast.Return) and st.value is not None:
+                ret = self.expr(mod, fn, owner, st.value, scope, {}, body)
+                continue
+            if isinstance(st, ast.If) and not st.orelse and len(st.body) == 1:
+                c = self.cond(st.test, scope)
+                s = self.simple_stmt(mod, fn, owner, st.body[0], scope)
+                if s[0] == "assign":
+                    if s[1] not in scope:
+                        raise _NoBuild("conditional definition of a new local")
+                    body.append(("assignIf", c, s[1], s[2]))
+                else:
+                    body.append(("setKeyIf", c, s[1], s[2], s[3]))
+                continue
+            s = self.simple_stmt(mod, fn, owner, st, scope, body)
+            if s[0] != "assign":
+                raise _NoBuild("unconditional item assignment")
+            body.append(s)
+            scope.add(s[1])
+        if ret is None:
+            raise _NoBuild("no return")
+        return {"module": modname, "qual": qual, "params": list(zip(names, defaults)), "body": body, "ret": ret}
+
+    @staticmethod
+    def _default(d):
+        if isinstance(d, ast.Constant) and (d.value is None or isinstance(d.value, (bool, int, float, str))):
+            return d.value
+        raise _NoBuild("default value")
+
+
+_REQUIRED = object()
+
+
+def _rename_key(k, ren):
+    return ("param", ren.get(k[1], k[1])) if k[0] == "param" else k
+
+
+def _rename_cond(c, ren):
+    return (c[0], ren.get(c[1], c[1]))
+
+
+def _rename_expr(e, ren):
+    k = e[0]
+    if k == "param":
+        return ("param", ren.get(e[1], e[1]))
+    if k == "const":
+        return e
+    if k == "list":
+        return ("list", [_rename_expr(x, ren) for x in e[1]])
+    if k == "dict":
+        return ("dict", [(_rename_key(kk, ren), _rename_expr(v, ren)) for kk, v in e[1]])
+    if k == "model":
+        return ("model", e[1], [(a, _rename_expr(v, ren)) for a, v in e[2]])
+    if k == "orElse":
+        return ("orElse", _rename_expr(e[1], ren), _rename_expr(e[2], ren))
+    if k == "ite":
+        return ("ite", _rename_cond(e[1], ren), _rename_expr(e[2], ren), _rename_expr(e[3], ren))
+    raise _NoBuild(k)
+
+
+def _rename_stmt(st, ren):
+    if st[0] == "assign":
+        return ("assign", ren.get(st[1], st[1]), _rename_expr(st[2], ren))
+    if st[0] == "assignIf":
+        return ("assignIf", _rename_cond(st[1], ren), ren.get(st[2], st[2]), _rename_expr(st[3], ren))
+    if st[0] == "setKeyIf":
+        return ("setKeyIf", _rename_cond(st[1], ren), ren.get(st[2], st[2]), _rename_key(st[3], ren), _rename_expr(st[4], ren))
+    raise _NoBuild(st[0])
+
+
+def _subst_expr(e, actual):
+    k = e[0]
+    if k == "param":
+        return actual[e[1]]
+    if k == "const":
+        return e
+    if k == "list":
+        return ("list", [_subst_expr(x, actual) for x in e[1]])
+    if k == "dict":
+        out = []
+        for kk, v in e[1]:
+            if kk[0] == "param":
+                a = actual[kk[1]]
+                if a[0] == "const" and isinstance(a[1], str):
+                    kk = ("lit", a[1])
+                elif a[0] == "param":
+                    kk = ("param", a[1])
+                else:
+                    raise _NoBuild("computed dict key")
+            out.append((kk, _subst_expr(v, actual)))
+        return ("dict", out)
+    if k == "model":
+        return ("model", e[1], [(a, _subst_expr(v, actual)) for a, v in e[2]])
+    if k == "orElse":
+        return ("orElse", _subst_expr(e[1], actual), _subst_expr(e[2], actual))
+    if k == "ite":
+        a = actual[e[1][1]]
+        if a[0] != "param":
+            raise _NoBuild("condition on a computed argument")
+        return ("ite", (e[1][0], a[1]), _subst_expr(e[2], actual), _subst_expr(e[3], actual))
+    raise _NoBuild(k)
+
+
+def find_builders(src: Path, classes):
+    res = _Resolver(src.parent, classes)
+    tr = _BuilderTranslator(res)
+    built, skipped = [], []
+    for (modname, qual) in sorted(tr.funcs):
+        if not qual.split(".")[-1].startswith("create_"):
+            continue
+        try:
+            built.append(tr.translate(modname, qual))
+        except _NoBuild as ex:
+            skipped.append((modname, qual, str(ex)))
+    return built, skipped
+
+
+def _module_const(mod: _Module, e):
+    """a string constant, directly or through a module-level name"""
+    if isinstance(e, ast.Constant) and isinstance(e.value, str):
+        return e.value
+    if isinstance(e, ast.Name) and e.id in mod.aliases:
+        v = mod.aliases[e.id]
+        if isinstance(v, ast.Constant) and isinstance(v.value, str):
+            return v.value
+    return None
+
+
+def _parse_table_loop(res, mod, fn, data, stmts):
+    """tag = data.get("<member>");  for t, model in TABLE: if tag == t: return model.model_validate(data);  raise
+    with TABLE a module-level tuple/list of (tag, Class) pairs"""
+    a, loop = stmts[0], stmts[1]
+    v = a.value
+    if not (isinstance(a.targets[0], ast.Name) and isinstance(v, ast.Call) and isinstance(v.func, ast.Attribute)
+            and v.func.attr == "get" and isinstance(v.func.value, ast.Name) and v.func.value.id == data
+            and len(v.args) == 1 and isinstance(v.args[0], ast.Constant)):
+        return None
+    tagvar, member = a.targets[0].id, v.args[0].value
+    if not (isinstance(loop.target, ast.Tuple) and len(loop.target.elts) == 2 and all(isinstance(x, ast.Name) for x in loop.target.elts)
+            and isinstance(loop.iter, ast.Name) and loop.iter.id in mod.aliases and not loop.orelse and len(loop.body) == 1):
+        return None
+    tn, mn = loop.target.elts[0].id, loop.target.elts[1].id
+    st = loop.body[0]
+    if not (isinstance(st, ast.If) and not st.orelse and len(st.body) == 1 and isinstance(st.test, ast.Compare)
+            and len(st.test.ops) == 1 and isinstance(st.test.ops[0], ast.Eq)):
+        return None
+    names = {getattr(st.test.left, "id", None), getattr(st.test.comparators[0], "id", None)}
+    r = st.body[0]
+    if names != {tagvar, tn} or not (
+            isinstance(r, ast.Return) and isinstance(r.value, ast.Call) and isinstance(r.value.func, ast.Attribute)
+            and r.value.func.attr == "model_validate" and isinstance(r.value.func.value, ast.Name) and r.value.func.value.id == mn
+            and len(r.value.args) == 1 and isinstance(r.value.args[0], ast.Name) and r.value.args[0].id == data):
+        return None
+    tbl = mod.aliases[loop.iter.id]
+    if not isinstance(tbl, (ast.Tuple, ast.List)):
+        return None
+    table = []
+    for row in tbl.elts:
+        if not (isinstance(row, ast.Tuple) and len(row.elts) == 2 and isinstance(row.elts[1], ast.Name)):
+            return None
+        tag = _module_const(mod, row.elts[0])
+        ids = res.name_to_ids(mod, row.elts[1].id)
+        if tag is None or not ids or len(ids) != 1:
+            return None
+        table.append((tag, next(iter(ids))))
+    return {"module": mod.modname, "qual": fn.name, "member": member, "table": table} if table else None
+
+
+def find_parse_tables(src: Path, classes):
+    """`parse_*` helpers that dispatch on a member of the wire object:
+        tag = data.get("<member>");  if tag == "<const>": return Class.model_validate(data)  elif …  else: raise
+    -> [{"module","qual","member","table":[(const, class id)]}]"""
+    res = _Resolver(src.parent, classes)
+    out = []
+    for modname, mod in sorted(res.mods.items()):
+        if not modname.startswith("chuk_mcp.protocol"):
+            continue
+        for fn in mod.tree.body:
+            if not (isinstance(fn, ast.FunctionDef) and fn.name.startswith("parse_") and len(fn.args.args) == 1):
+                continue
+            data = fn.args.args[0].arg
+            stmts = [s for s in fn.body if not (isinstance(s, ast.Expr) and isinstance(s.value, ast.Constant))]
+            if len(stmts) == 3 and isinstance(stmts[0], ast.Assign) and isinstance(stmts[1], ast.For) and isinstance(stmts[2], ast.Raise):
+                t = _parse_table_loop(res, mod, fn, data, stmts)
+                if t is not None:
+                    out.append(t)
+                continue
+            if len(stmts) != 2 or not isinstance(stmts[0], ast.Assign) or not isinstance(stmts[1], ast.If):
+                continue
+            a = stmts[0]
+            v = a.value
+            if not (isinstance(a.targets[0], ast.Name) and isinstance(v, ast.Call) and isinstance(v.func, ast.Attribute)
+                    and v.func.attr == "get" and isinstance(v.func.value, ast.Name) and v.func.value.id == data
+                    and len(v.args) == 1 and isinstance(v.args[0], ast.Constant)):
+                continue
+            tagvar, member = a.targets[0].id, v.args[0].value
+            table, node, ok = [], stmts[1], True
+            while isinstance(node, ast.If):
+                t = node.test
+                r = node.body[0] if len(node.body) == 1 else None
+                if not (isinstance(t, ast.Compare) and isinstance(t.left, ast.Name) and t.left.id == tagvar and len(t.ops) == 1
+                        and isinstance(t.ops[0], ast.Eq) and isinstance(t.comparators[0], ast.Constant)
+                        and isinstance(r, ast.Return) and isinstance(r.value, ast.Call)
+                        and isinstance(r.value.func, ast.Attribute) and r.value.func.attr == "model_validate"
+                        and isinstance(r.value.func.value, ast.Name) and len(r.value.args) == 1
+                        and isinstance(r.value.args[0], ast.Name) and r.value.args[0].id == data):
+                    ok = False
+                    break
+                ids = res.name_to_ids(mod, r.value.func.value.id)
+                if not ids or len(ids) != 1:
+                    ok = False
+                    break
+                table.append((t.comparators[0].value, next(iter(ids))))
+                if len(node.orelse) == 1 and isinstance(node.orelse[0], ast.If):
+                    node = node.orelse[0]
+                else:
+                    if not (len(node.orelse) == 1 and isinstance(node.orelse[0], ast.Raise)):
+                        ok = False
+                    break
+            if ok and table:
+                out.append({"module": modname, "qual": fn.name, "member": member, "table": table})
+    return out
+
+
+@translate.register("Builders")
+def gen_builders(src: Path):
+    report = {"file": "Gen/Builders.lean", "untranslatable": []}
+    views = load_views()
+    classes = views["fallback"]["classes"]
+    built, skipped = find_builders(src, classes)
+    parsers = find_parse_tables(src, classes)
+    rows = []
+    for b in built:
+        try:
+            params = ", ".join(
+                f"({lstr(n)}, {'none' if d is _REQUIRED else '(some ' + ljson(d) + ')'})" for n, d in b["params"])
+            body = ", ".join(_lean_bstmt(s) for s in b["body"])
+            rows.append(f"  {{ module := {lstr(b['module'])}, name := {lstr(b['qual'])},\n    params := [{params}],\n"
+                        f"    body := [{body}],\n    ret := {_lean_bexpr(b['ret'])} }}")
+        except Bad as ex:
+            skipped.append((b["module"], b["qual"], f"value {ex}"))
+    prow = []
+    for p in parsers:
+        tbl = ", ".join(f"({lstr(str(c))}, {lstr(cid)})" for c, cid in p["table"])
+        prow.append(f"  {{ module := {lstr(p['module'])}, name := {lstr(p['qual'])}, member := {lstr(p['member'])}, table := [{tbl}] }}")
+    srows = [f"  ({lstr(m + '.' + q)}, {lstr(why)})" for m, q, why in skipped]
+    lean = f"""-- GENERATED by verifpy/translate_schema.py from the AST of the `create_*` / `parse_*` helpers of
+-- chuk_mcp.protocol. Do not edit.
+import Verif.Model.Schema
+namespace Verif.Gen.Builders
+open Verif.Model.Schema
+
+def translatable : Bool := true
+
+/-- `create_*` helpers whose body is straight-line construction (see `_BuilderTranslator`) -/
+def builders : List Builder := [
+{(','+chr(10)).join(rows)}]
+
+/-- `parse_*` helpers that dispatch on a member of the wire object -/
+def parsers : List ParseTable := [
+{(','+chr(10)).join(prow)}]
+
+/-- helpers outside the translator's subset (branching on types, comprehensions, uuid, os): tied by the
+two-backend correspondence of the `constructors` suite only -/
+def skipped : List (String × String) := [
+{(','+chr(10)).join(srows)}]
+
+end Verif.Gen.Builders
+"""
+    report["builders"] = [(b["module"], b["qual"]) for b in built]
+    report["skipped"] = skipped
+    report["parsers"] = parsers
     return lean, report
